@@ -33,6 +33,21 @@ type Entry struct {
 	Metadata map[string]string `json:"metadata,omitempty"`
 	Invalid  string            `json:"invalid,omitempty"` // "" | unknown_method | unknown_field | wrong_type
 	Stall    bool              `json:"stall,omitempty"`
+	// Unknown (only with Invalid == unknown_method): the call name as written, one of many shapes of a name that is not a
+	// method of the target; nil = target.TargetService.Nope (cases recorded before the field existed)
+	Unknown *UnknownCall `json:"unknown_call,omitempty"`
+}
+
+// callField is the entry's "call" member as written into the ammo line (with the separating comma), or nothing when the
+// key is left out.
+func (e Entry) callField() string {
+	switch {
+	case e.Unknown == nil:
+		return fmt.Sprintf(`"call": "target.TargetService.%s", `, e.Method)
+	case e.Unknown.NoKey:
+		return ""
+	}
+	return fmt.Sprintf(`"call": %s, `, mustJSON(e.Unknown.Name))
 }
 
 type Case struct {
@@ -134,6 +149,8 @@ func genEntry(t *rapid.T, idx int) Entry {
 	case 0:
 		e.Invalid = "unknown_method"
 		e.Method = "Nope"
+		u := genUnknownCall(t)
+		e.Unknown = &u
 	case 1:
 		e.Invalid = "unknown_field"
 		p["bogus_field"] = 1
@@ -283,7 +300,7 @@ func check(c Case, o *vf.Obs) error {
 		var payload map[string]any
 		_ = json.Unmarshal([]byte(e.Payload), &payload)
 		// write the payload text verbatim so that number/string encodings survive
-		fmt.Fprintf(&sb, `{"tag": "e%d", "call": "target.TargetService.%s", "metadata": %s, "payload": %s}`+"\n", i, e.Method, mustJSON(e.Metadata), e.Payload)
+		fmt.Fprintf(&sb, `{"tag": "e%d", %s"metadata": %s, "payload": %s}`+"\n", i, e.callField(), mustJSON(e.Metadata), e.Payload)
 	}
 	name := pand.WriteFile("c20", ".json", []byte(sb.String()))
 	defer pand.Remove(name)
@@ -490,11 +507,25 @@ func check(c Case, o *vf.Obs) error {
 	o.ClassIf(c.ReflectPort && !c.SharedClient, "reflect_port_client_per_instance")
 	// every one of the N shared clients is some instance's client: whichever of them were dialled wrongly, it shows
 	o.ClassIf(c.ReflectPort && c.SharedClient && c.Instances >= c.clients(), "reflect_port_shared_client_all_clients_used")
+	// the shapes of unknown call names (once per case each)
+	shapes := map[string]bool{}
+	noDot, noDotMixed, valid := false, false, len(c.Entries)-invalids
 	for _, e := range c.Entries {
 		if e.Invalid != "" {
 			o.Class("invalid_" + e.Invalid)
 		}
+		if u := e.Unknown; u != nil && !shapes[u.Shape] {
+			shapes[u.Shape] = true
+			o.Class("unknown_call_" + u.Shape)
+		}
+		if u := e.Unknown; u != nil && u.withoutDot() {
+			noDot = true
+			noDotMixed = valid > 0
+		}
 	}
+	o.ClassIf(len(shapes) > 0, "unknown_call_name")
+	o.ClassIf(noDot, "unknown_call_name_without_dot")
+	o.ClassIf(noDotMixed, "unknown_call_name_without_dot_among_valid_entries")
 	if mdExtra || (invalids > 0 && invalids < len(c.Entries)) || c.Instances >= 2 {
 		o.NonTrivial()
 	}
